@@ -18,7 +18,7 @@ use std::time::Instant;
 use vpcore::rayon::prelude::*;
 use vpcore::serde_json::{Value, json};
 use vpcore::{Ctx, Histo, Report, finish, machinery_error};
-use vpe4::{Fixture, Leaf, LeafKind, ValueFault, Verdict, catalogue, faulted_value, leaves, parse_path, path_string, with_leaf};
+use vpe4::{Fixture, Forge, Leaf, LeafKind, ValueFault, Verdict, catalogue, faulted_value, leaves, parse_path, path_string, with_leaf};
 
 #[derive(Clone)]
 struct Case {
@@ -100,6 +100,8 @@ fn replay(ctx: &Ctx, path: &std::path::Path) -> ! {
     let cm = AtomicU64::new(0);
     let tree = if r["honest"].as_bool().unwrap_or(false) {
         fx.honest.clone()
+    } else if let Some(f) = Forge::from_json(&r["forge"]) {
+        fx.forge(&f).unwrap_or_else(|e| machinery_error(&format!("replay: forging failed: {e}")))
     } else {
         let p = parse_path(r["path"].as_str().unwrap_or(""));
         let nv = r["new_value"].as_u64().unwrap_or_else(|| machinery_error("replay: no new_value"));
@@ -126,6 +128,10 @@ fn main() {
     let verdicts = Histo::new();
     let cache_mismatch = AtomicU64::new(0);
 
+    let missing = vpe4::catalogue::missing_quick_names();
+    if !missing.is_empty() {
+        machinery_error(&format!("quick-tier names missing from the catalogue: {missing:?}"));
+    }
     let filter = ctx.opt("config").map(|s| s.to_string());
     let specs: Vec<_> = catalogue()
         .into_iter()
@@ -247,7 +253,7 @@ fn main() {
                 }
                 Outcome::BothAccept => {
                     let mut b = local_both.lock().unwrap();
-                    if b.len() < 40 {
+                    if b.len() < 20 {
                         b.push(case_json());
                     }
                 }
@@ -259,6 +265,73 @@ fn main() {
                     }
                     let mut s = local_samples.lock().unwrap();
                     if s.len() < 2 {
+                        s.push(case_json());
+                    }
+                }
+                Outcome::NotAProof => {}
+            }
+        });
+
+        // ---- prover-side deviations: every main-trace cell +1 / every public value +1, proved by the
+        // real prover. These objects pass every hash-based check, so only the algebraic checks
+        // (constraint/quotient identity, lookup terminal sum) can reject them.
+        let forge_failed = AtomicU64::new(0);
+        let forged_ev = AtomicU64::new(0);
+        planned_total += fx.forge_space.len() as u64;
+        fx.forge_space.par_iter().for_each(|f| {
+            if ctx.out_of_time() {
+                skipped.fetch_add(1, Ordering::Relaxed);
+                return;
+            }
+            let tree = match fx.forge(f) {
+                Ok(t) => t,
+                Err(e) => {
+                    forge_failed.fetch_add(1, Ordering::Relaxed);
+                    verdicts.add(&format!("forge_failed:{}", e.rsplit(" @ ").next().unwrap_or("")));
+                    return;
+                }
+            };
+            let (o, n, c) = judge(&fx, &tree, &cache_mismatch);
+            ev.fetch_add(1, Ordering::Relaxed);
+            forged_ev.fetch_add(1, Ordering::Relaxed);
+            verdicts.add(&format!("forged:{}|{}", n.tag(), c.tag()));
+            let class = f.class();
+            {
+                let mut g = classes.lock().unwrap();
+                let row = g.entry(class.clone()).or_default();
+                row.evals += 1;
+                match o {
+                    Outcome::NotAProof => row.not_a_proof += 1,
+                    Outcome::BothAccept => row.both_accept += 1,
+                    Outcome::AgreeReject | Outcome::FalseAccept => row.native_reject += 1,
+                    Outcome::FalseReject => {}
+                }
+                if c.is_panic() {
+                    row.circuit_panic += 1;
+                }
+            }
+            if n.rejects() {
+                nt.fetch_add(1, Ordering::Relaxed);
+            }
+            let case_json = || {
+                json!({"config": fx.name, "forge": f.to_json(), "path": f.show(), "class": class,
+                       "native": n.to_json(), "circuit": c.to_json()})
+            };
+            match o {
+                Outcome::FalseAccept | Outcome::FalseReject => report.violation(
+                    format!("{}|{}|{}", fx.name, class, direction(o)),
+                    format!("{} {}: native {} but circuit {}", fx.name, f.show(), n.tag(), c.tag()),
+                    case_json(),
+                ),
+                Outcome::BothAccept => {
+                    let mut b = local_both.lock().unwrap();
+                    if b.len() < 60 {
+                        b.push(case_json());
+                    }
+                }
+                Outcome::AgreeReject => {
+                    let mut s = local_samples.lock().unwrap();
+                    if s.len() < 3 {
                         s.push(case_json());
                     }
                 }
@@ -290,6 +363,8 @@ fn main() {
             "config": fx.name, "desc": fx.desc, "honest": "accepted by both",
             "leaves": all.len(), "field_leaves": n_field, "structural_leaves": all.len() - n_field,
             "leaf_classes": classes.len(), "faults_planned": cases.len(), "faults_evaluated": ev.load(Ordering::Relaxed),
+            "forged_objects_planned": fx.forge_space.len(), "forged_objects_evaluated": forged_ev.load(Ordering::Relaxed),
+            "forge_failed": forge_failed.load(Ordering::Relaxed),
             "faults_skipped_out_of_time": sk, "native_reject": nt.load(Ordering::Relaxed), "both_accept": both,
             "not_a_proof": nap, "circuit": fx.stats.to_json(), "wall_s": t0.elapsed().as_secs_f64(),
             "per_class[evals,native_reject,both_accept,circuit_panic,not_a_proof]": class_json,
@@ -314,7 +389,7 @@ fn main() {
     }
 
     samples.truncate(6);
-    both_accept_list.truncate(60);
+    both_accept_list.truncate(120);
     let cov = json!({
         "evaluations": evaluations,
         "distinct_nontrivial": nontrivial,
@@ -323,7 +398,7 @@ fn main() {
                  verifier REJECTS the faulted object, so the circuit's rejection is a real check (faults both sides accept are \
                  listed under both_accept)",
         "exhaustive": exhaustive,
-        "space": "configurations × (honest + every numeric leaf × fault kinds); quick: leaf+1 (structural ±1); thorough: +1, 0, neighbour (structural ±1, 0)",
+        "space": "configurations × (honest + every numeric leaf × fault kinds + every prover-side deviation: each main-trace cell +1 and each public value +1, proved by the real prover); quick: leaf+1 (structural ±1); thorough: +1, 0, neighbour (structural ±1, 0)",
         "configurations_planned": n_specs,
         "configurations_done": configs_done,
         "faults_planned": planned_total,
